@@ -148,6 +148,35 @@ def rule_r1(ctx) -> List[R.Inst]:
                        f"the three parallel layout tables have lengths {len(fmts)}/{len(sizes)}/{len(counts)}: zip() silently drops "
                        f"the tail fields", construct=f"{len(fmts)}/{len(sizes)}/{len(counts)}")]
     insts.append(R.ok(rid, "tables:length", file, line, idiom=f"{len(fmts)} rows in each of the three tables"))
+    # a whole-header struct format (HEADER = struct.Struct("<i4sf..")) beside the tables: field by field the frozen layout's type codes
+    import re as _re
+    want_codes = []
+    for fr in frozen:
+        want_codes += [("s", fr["count"])] if fr["fmt"] == "s" else [(fr["fmt"], 1)] * fr["count"]
+    for n in ast.walk(M.mods[cls.mod].tree):
+        if isinstance(n, ast.Constant) and isinstance(n.value, str) and _re.fullmatch(r"[<>=!@]?(\d*[xcbB?hHiIlLqQnNefdspP])+", n.value) and len(n.value) > 12:
+            try:
+                if struct.calcsize(n.value) != 300:
+                    continue
+            except struct.error:
+                continue
+            got_codes = []
+            for cnt, code in _re.findall(r"(\d*)([xcbB?hHiIlLqQnNefdspP])", n.value.lstrip("<>=!@")):
+                k_ = int(cnt) if cnt else 1
+                got_codes += [("s", k_)] if code == "s" else [(code, 1)] * k_
+            key = "header-format"
+            if n.value[:1] != "<":
+                insts.append(R.viol(rid, key, file, n.lineno, f"the whole-header format '{n.value[:20]}…' is not little-endian without padding ('<')",
+                                    construct=f"header format {n.value}"))
+            elif got_codes == want_codes:
+                insts.append(R.ok(rid, key, file, n.lineno, idiom="whole-header struct format = the frozen OJN layout, code by code"))
+            else:
+                k_bad = next((i for i, (a_, b_) in enumerate(zip(got_codes, want_codes)) if a_ != b_), min(len(got_codes), len(want_codes)))
+                insts.append(R.viol(rid, key, file, n.lineno,
+                                    f"the whole-header format differs from the OJN layout at value {k_bad}: it reads "
+                                    f"{got_codes[k_bad] if k_bad < len(got_codes) else 'nothing'} where the layout has "
+                                    f"{want_codes[k_bad] if k_bad < len(want_codes) else 'nothing'} (a signed field read unsigned, or the reverse, "
+                                    f"changes every value with the high bit set)", construct=f"header format {n.value}"))
     total = sum(sizes)
     rd = M.fn(MAPSET + ".read")
     hdr_slice = None
